@@ -60,11 +60,11 @@ def label (s : Sys) (tid : Tid) : String :=
     match th.prog with
     | [] => "!"
     | .get _ :: _ => "R" | .write .. :: _ => "V" | .tick :: _ => "T" | .render .. :: _ => "B"
-    | .adjust _ :: _ => "c"
+    | .adjust _ :: _ => "g"
   | .gS .. => "S" | .gP .. => "P" | .gPx .. => "P" | .gF .. => "F"
   | .gAcq .. => if s.sh.mutex.isSome then "!" else "A"
   | .gH2 .. => "R" | .gC .. => "C" | .gW .. => "W" | .gM .. => "L" | .gMd .. => "D"
-  | .gP2 .. => "P" | .gRel .. => "X" | .rK .. => "K" | .aG .. => "g" | .aS .. => "s"
+  | .gP2 .. => "P" | .gRel .. => "X" | .gRelS .. => "X" | .rK .. => "K" | .aS .. => "s"
 
 def runTrace : List Tid → Sys → List String → Sys × List String
   | [], s, acc => (s, acc.reverse)
